@@ -71,6 +71,10 @@ package dbft
 //@ ghost gTimerV Int
 //@ ghost gTimerD Int
 //@ ghost gTimerArms Int
+//@ ghost gTimerExt Int
+// successful hand-overs to the application: pre-blocks and blocks the callbacks accepted
+//@ ghost gPreBlockOK Int
+//@ ghost gAccepted Int
 //@ ghost gClock Int
 //@ ghost gPool RefSeq Transaction
 //@ ghost gVerified Ref
@@ -305,7 +309,7 @@ package dbft
 // C05: nothing of the decided height is touched any more (the future-message cache and the liveness notes may change).
 //@ pred quiet() = unchanged(self.ViewNumber, self.PreparationPayloads, self.CommitPayloads, self.PreCommitPayloads, self.ChangeViewPayloads, self.LastChangeViewPayloads,
 //@        self.Transactions, self.TransactionHashes, self.MissingTransactions, self.Timestamp, self.Nonce, self.header, self.block, self.preHeader, self.preBlock,
-//@        self.blockProcessed, self.preBlockProcessed, self.BlockIndex, self.PrimaryIndex) && gTimerArms == old(gTimerArms)
+//@        self.blockProcessed, self.preBlockProcessed, self.BlockIndex, self.PrimaryIndex) && gTimerArms == old(gTimerArms) && gTimerExt == old(gTimerExt)
 //@ pred txKept() = forallOf(Transaction, t, implies(old(has(self.Transactions, t.Hash())), has(self.Transactions, t.Hash())))
 // C11: an inadmissible or repeated input changes nothing of the above and causes no broadcast.
 //@ pred ignored() = quiet() && gBroadcasts == old(gBroadcasts)
@@ -335,6 +339,7 @@ package dbft
 //@   ensures  [C15] @sameBase self.lastBlockTimestamp == old(self.lastBlockTimestamp)
 //@   ensures  @arms gTimerArms >= old(gTimerArms) && gBroadcasts >= old(gBroadcasts)
 //@   ensures  [C05] @decidedStays implies(old(self.blockProcessed), self.blockProcessed)
+//@   ensures  [C05,C07] @handedOver handedOver()
 //@   ensures  [C05] @cacheKeptPurged implies(old(cachePurged()), cachePurged())
 //@   ensures  [C12] @txKept implies(self.ViewNumber == old(self.ViewNumber), forallOf(Transaction, t, implies(old(has(self.Transactions, t.Hash())), has(self.Transactions, t.Hash()))))
 //@   ensures  @heap heapMono()
@@ -347,12 +352,22 @@ package dbft
 //@   ensures gBroadcasts >= old(gBroadcasts)
 //@   ensures [C05] @cacheKeptPurged implies(old(cachePurged()), cachePurged())
 //@   ensures [C05] @decidedStays implies(old(self.blockProcessed), self.blockProcessed)
+//@   ensures [C05,C07] @handedOver handedOver()
 //@   ensures [C12] @txKept implies(self.ViewNumber == old(self.ViewNumber), forallOf(Transaction, t, implies(old(has(self.Transactions, t.Hash())), has(self.Transactions, t.Hash()))))
 //@   ensures  [C03] @lock implies(old(locked()), self.ViewNumber == old(self.ViewNumber) && implies(old(gCommit) != nil, gCommit == old(gCommit)) && implies(old(gPreCommit) != nil, gPreCommit == old(gPreCommit)))
 //@   ensures  [C03] @sameViewSameWord implies(self.ViewNumber == old(self.ViewNumber) && old(gPrep) != nil, gPrep == old(gPrep))
 //@   ensures sameHeight() && self.ViewNumber >= old(self.ViewNumber) && heapMono() && timerKept()
 
 // ---- more externs ----
+
+//@ extern Config.ProcessPreBlock
+//@   ghost gPreBlockOK = gPreBlockOK + ite(result == nil, 1, 0)
+//@ extern Config.ProcessBlock
+//@   ghost gAccepted = gAccepted + ite(result == nil, 1, 0)
+// the two flags say exactly that the application accepted: set when (and only when) the callback succeeded, and then no second hand-over
+//@ pred handedOver() = self.preBlockProcessed == (old(self.preBlockProcessed) || gPreBlockOK > old(gPreBlockOK)) && implies(old(self.preBlockProcessed), gPreBlockOK == old(gPreBlockOK))
+//@        && self.blockProcessed == (old(self.blockProcessed) || gAccepted > old(gAccepted)) && implies(old(self.blockProcessed), gAccepted == old(gAccepted))
+//@        && old(gPreBlockOK) <= gPreBlockOK && gPreBlockOK <= old(gPreBlockOK) + 1 && old(gAccepted) <= gAccepted && gAccepted <= old(gAccepted) + 1
 
 // A3: a freshly built payload already carries this node's index, so setting it again changes nothing.
 //@ extern ConsensusPayload.SetValidatorIndex
@@ -424,15 +439,17 @@ package dbft
 //@   requires base() && implies(view > 0, wf() && slot() && tip() && view > self.ViewNumber)
 //@   requires ts + self.TimestampIncrement <= 18446744073709551615
 //@   use INV
-//@   ensures self.ViewNumber == view
+//@   ensures [C05,C10,C11] @entersView self.ViewNumber == view
+// B6: at a new height the tables that feed recovery messages and the failed-node count start empty as well
+//@   ensures [C05] @historyCleared implies(view == 0, forall(i, 0, NN(), self.LastChangeViewPayloads[i] == nil && (self.LastSeenMessage[i] == nil || i == self.MyIndex)))
 //@   ensures [C05,C04,C12,C02,C01,C11] @cleanProposal cleanProposal()
-//@   ensures [C05] @cleanHeight implies(view == 0, !self.blockProcessed && !self.preBlockProcessed && self.lastBlockTimestamp == ts)
+//@   ensures [C05,C07] @cleanHeight implies(view == 0, !self.blockProcessed && !self.preBlockProcessed && self.lastBlockTimestamp == ts)
 //@   ensures [C05] @freshFromCallbacks implies(view == 0, sametable(self.Validators, gValidators) && self.timePerBlock == gTimePerBlock
 //@        && implies(self.Config.MaxTimePerBlock != nil, self.maxTimePerBlock == gMaxTimePerBlock) && tip() && self.MyIndex == first(self.Config.GetKeyPair(self.Validators)))
 //@   ensures [C16,C05] @unsubscribed !self.txSubscriptionOn
 //@   ensures [C15,C05] @base self.lastBlockTimestamp == ts
-//@   ensures implies(view > 0, sameHeight() && unchanged(self.CommitPayloads, self.PreCommitPayloads, self.preBlockProcessed, self.blockProcessed))
-//@   ensures forall(i, 0, NN(), self.PreparationPayloads[i] == nil && self.ChangeViewPayloads[i] == nil) && implies(view == 0, forall(i, 0, NN(), self.CommitPayloads[i] == nil && self.PreCommitPayloads[i] == nil))
+//@   ensures [C05,C07,C03,C11] @keptWithinHeight implies(view > 0, sameHeight() && unchanged(self.CommitPayloads, self.PreCommitPayloads, self.preBlockProcessed, self.blockProcessed))
+//@   ensures [C05,C04,C11] @tablesCleared forall(i, 0, NN(), self.PreparationPayloads[i] == nil && self.ChangeViewPayloads[i] == nil) && implies(view == 0, forall(i, 0, NN(), self.CommitPayloads[i] == nil && self.PreCommitPayloads[i] == nil))
 //@   ghost gPrep = nil
 //@   ghost gCommit = ite(view == 0, nil, gCommit)
 //@   ghost gPreCommit = ite(view == 0, nil, gPreCommit)
@@ -602,6 +619,13 @@ package dbft
 //@ func (*Context).makeCommit
 //@   inline
 //@   at call b.Sign: assert [C07] @afterPreBlock implies(amev(), c.preBlockProcessed)
+// C13: a block signature and pre-commit data are produced in these two places only, and never on a watch-only node
+//@   at call b.Sign: assert [C13] @silent notWatchOnly()
+//@ func (*Context).makePreCommit
+//@   inline
+//@   at call preB.SetData: assert [C13] @silent notWatchOnly()
+//@ callers [C13] Block.Sign : (*Context).makeCommit
+//@ callers [C13] PreBlock.SetData : (*Context).makePreCommit
 //@ func (*DBFT).sendRecoveryRequest
 //@   requires wf() && slot()
 //@   ensures [C11] @wf wf()
@@ -666,9 +690,12 @@ package dbft
 //@   use UNDECIDED
 //@   ensures [C12] @stored implies(self.ViewNumber == old(self.ViewNumber), has(self.Transactions, tx.Hash()))
 //@   ensures [C12] @answers implies(self.ViewNumber == old(self.ViewNumber) && hasAllTx() && notWatchOnly() && self.MyIndex != self.PrimaryIndex, gBroadcasts > old(gBroadcasts))
+// the answer is the node's own prepare response, or its own request to leave the view
+//@   ensures [C12] @answersInKind implies(self.ViewNumber == old(self.ViewNumber) && hasAllTx() && notWatchOnly() && self.MyIndex != self.PrimaryIndex && aview(), self.PreparationPayloads[self.MyIndex] != nil || askedToLeave())
 //@   requires tx != nil && rsor()
 //@   requires [C03] @lock !locked() && gPrep == nil
 //@ func (*DBFT).Start
+//@   ensures [C15] @base self.lastBlockTimestamp == ts
 //@   ensures [C05] @cachePurged cachePurged()
 //@   ensures [C10] @timer implies(aview(), timerOK())
 //@   requires cfgOK() && 0 <= self.rttEstimates.idx && self.rttEstimates.idx < 70
@@ -676,6 +703,7 @@ package dbft
 //@   requires ts + self.TimestampIncrement <= 18446744073709551615
 //@   use INV
 //@ func (*DBFT).Reset
+//@   ensures [C15] @base self.lastBlockTimestamp == ts
 //@   ensures [C05] @cachePurged cachePurged()
 //@   ensures [C10] @timer implies(aview(), timerOK())
 //@   requires base()
@@ -690,6 +718,7 @@ package dbft
 //@   use INV
 //@   ensures self.ViewNumber >= view
 //@   ensures implies(view > 0, sameHeight())
+//@   ensures [C05,C07] @handedOver implies(view > 0, handedOver())
 //@   ensures [C15] @sameBase self.lastBlockTimestamp == ts
 //@   ensures @heap heapMono()
 //@   ensures [C10] @timer implies(aview(), timerOK())
@@ -705,18 +734,22 @@ package dbft
 //@   loop 1: use INV
 //@   loop 1: invariant self.ViewNumber >= view && implies(view > 0, sameHeight()) && heapMono() && inboxOK(msgs) && gTimerArms >= old(gTimerArms) && gBroadcasts >= old(gBroadcasts)
 //@   loop 1: invariant [C15] @sameBase self.lastBlockTimestamp == ts
+//@   loop 1: invariant [C05,C07] @handedOver implies(view > 0, handedOver())
 //@   loop 1: invariant [C05] @cachePurged implies(view == 0, cachePurged()) && implies(old(cachePurged()), cachePurged())
 //@   loop 2: use INV
 //@   loop 2: invariant self.ViewNumber >= view && implies(view > 0, sameHeight()) && heapMono() && inboxOK(msgs) && gTimerArms >= old(gTimerArms) && gBroadcasts >= old(gBroadcasts)
 //@   loop 2: invariant [C15] @sameBase self.lastBlockTimestamp == ts
+//@   loop 2: invariant [C05,C07] @handedOver implies(view > 0, handedOver())
 //@   loop 2: invariant [C05] @cachePurged implies(view == 0, cachePurged()) && implies(old(cachePurged()), cachePurged())
 //@   loop 3: use INV
 //@   loop 3: invariant self.ViewNumber >= view && implies(view > 0, sameHeight()) && heapMono() && inboxOK(msgs) && gTimerArms >= old(gTimerArms) && gBroadcasts >= old(gBroadcasts)
 //@   loop 3: invariant [C15] @sameBase self.lastBlockTimestamp == ts
+//@   loop 3: invariant [C05,C07] @handedOver implies(view > 0, handedOver())
 //@   loop 3: invariant [C05] @cachePurged implies(view == 0, cachePurged()) && implies(old(cachePurged()), cachePurged())
 //@   loop 4: use INV
 //@   loop 4: invariant self.ViewNumber >= view && implies(view > 0, sameHeight()) && heapMono() && inboxOK(msgs) && gTimerArms >= old(gTimerArms) && gBroadcasts >= old(gBroadcasts)
 //@   loop 4: invariant [C15] @sameBase self.lastBlockTimestamp == ts
+//@   loop 4: invariant [C05,C07] @handedOver implies(view > 0, handedOver())
 //@   loop 4: invariant [C05] @cachePurged implies(view == 0, cachePurged()) && implies(old(cachePurged()), cachePurged())
 // A-VIEW / A-RTT: the timeout arithmetic is checked for overflow only under the view bound, a bounded RTT average and a non-zero last block time
 //@   wraps * unless aview() && 0 <= self.rttEstimates.avg && self.rttEstimates.avg <= 2305843009213693952 && self.lastBlockTime != tzero() && self.lastBlockIndex < 4294967295
@@ -727,8 +760,11 @@ package dbft
 //@   ensures [C11] @notRequested implies(forall(j, 0, old(len(self.MissingTransactions)), old(self.MissingTransactions[j]) != tx.Hash()), ignored())
 //@   ensures [C12] @answers implies(!old(has(self.Transactions, tx.Hash())) && has(self.Transactions, tx.Hash()) && self.ViewNumber == old(self.ViewNumber) && hasAllTx() && notWatchOnly() && !old(self.blockProcessed),
 //@        gBroadcasts > old(gBroadcasts))
+//@   ensures [C12] @answersInKind implies(!old(has(self.Transactions, tx.Hash())) && has(self.Transactions, tx.Hash()) && self.ViewNumber == old(self.ViewNumber) && hasAllTx() && notWatchOnly() && !old(self.blockProcessed) && aview(),
+//@        self.PreparationPayloads[self.MyIndex] != nil || askedToLeave())
 //@ func (*DBFT).OnTimeout
 //@   use U
+//@   ensures [C10] @rearm implies(aview() && height == old(self.BlockIndex) && view == old(self.ViewNumber) && !old(self.blockProcessed) && notWatchOnly(), gTimerArms > old(gTimerArms) || self.blockProcessed)
 //@   ensures [C11] @staleTimeout implies(height != old(self.BlockIndex) || view != old(self.ViewNumber), ignored())
 //@   ensures [C05] @quiescent implies(old(self.blockProcessed), quiet() && gBroadcasts == old(gBroadcasts))
 //@ func (*DBFT).OnNewTransaction
@@ -857,14 +893,15 @@ package dbft
 //@ func (*DBFT).changeTimer
 //@   requires wf()
 //@   requires [C10] @nonneg implies(aview(), delay >= 0)
-//@   ensures gTimerH == self.BlockIndex && gTimerV == self.ViewNumber && gTimerD == delay && gTimerArms == old(gTimerArms) + 1
+//@   ensures [C10,C11] @armed gTimerH == self.BlockIndex && gTimerV == self.ViewNumber && gTimerD == delay && gTimerArms == old(gTimerArms) + 1
 //@   modifies gTimerH, gTimerV, gTimerD, gTimerArms
 //@ callers [C10] Timer.Reset : (*DBFT).changeTimer
 //@ extern Timer.Extend
 //@   requires [C10] @nonneg arg0 >= 0
+//@   ghost gTimerExt = gTimerExt + 1
 //@ func (*DBFT).extendTimer
 //@   requires wf() && slot() && 0 <= count && count <= 4
-//@   modifies nothing
+//@   modifies gTimerExt
 
 // ---- helpers.go, rtt.go ----
 
